@@ -367,6 +367,21 @@ def execute(world, sb, res):
                 return
             order.append(i)
         res.history.append({"argv": shown, "status": inv.status, "signal": inv.signal, "order": order, "out": out})
+        # every file handed to `ucg test` gets a verdict: argv order for explicit files, the walked set for directories
+        if mode == "files":
+            want_order = list(sc["order"])
+            if order != want_order:
+                missing = [test_path(tests[i]) for i in want_order if order.count(i) < want_order.count(i)]
+                res.violate("C13.no-verdict", "files", "files given on the command line: %s; files actually validated, in order: %s (no verdict for %s)\n%s" % (
+                    [test_path(tests[i]) for i in want_order], [test_path(tests[i]) for i in order], missing,
+                    "argv: %s\n--- exit=%s\n%s" % (" ".join(shown), inv.status, out[-2000:])))
+        else:
+            recursive = mode in ("dir_r", "noargs_r", "dir_r_abs")
+            want_set = sorted(i for i in range(n) if recursive or not tests[i]["dir"])
+            if sorted(order) != want_set:
+                res.violate("C13.no-verdict", "walk", "directory walk (%s) should validate %s but validated %s\n%s" % (
+                    mode, [test_path(tests[i]) for i in want_set], [test_path(tests[i]) for i in order],
+                    "argv: %s\n--- exit=%s\n%s" % (" ".join(shown), inv.status, out[-2000:])))
         if mode != "files":
             exp = sorted(range(n), key=lambda i: test_path(tests[i]))
             if order != [i for i in exp if i in order]:
